@@ -144,6 +144,10 @@ void make_from_constant(sink& out)
     made_rt(out, "make_elastic_scaled_integer_c", Value, [](auto) { return cnl::make_elastic_scaled_integer(cnl::constant<Value>{}); });
     made_rt(out, "make_static_integer_c", Value, [](auto) { return cnl::make_static_integer(cnl::constant<Value>{}); });
     made_rt(out, "make_static_number_c", Value, [](auto) { return cnl::make_static_number(cnl::constant<Value>{}); });
+    // round 9: the one factory of C15's list that was only driven with run-time values, and the operator form that uses the
+    // same from_value<scaled_integer, constant> deduction
+    made_rt(out, "make_scaled_integer_c", Value, [](auto) { return cnl::make_scaled_integer(cnl::constant<Value>{}); });
+    made_rt(out, "scaled_times_constant", Value, [](auto) { return cnl::scaled_integer<int>{1} * cnl::constant<Value>{}; });
 }
 
 template<class I>
